@@ -42,7 +42,21 @@ def writes_of(sim):
 
 
 READ_CALLS = ("read_device_info", "read_runtime_data", "read_settings_data", "get_grid_export_limit", "get_operation_modes",
-              "get_operation_mode", "get_ongrid_battery_dod", "read_sensor", "read_setting", "read_setting_modbus", "read_sensor_modbus")
+              "get_operation_mode", "get_ongrid_battery_dod", "read_sensor", "read_setting", "read_setting_modbus", "read_sensor_modbus",
+              "read_setting_modbus_wide", "read_sensor_modbus_wide")
+# register numbers of the generic 'modbus-N' ids far outside 0..65535 (whatever the library makes of them, it must stay a read):
+# carries into the function-code / address bytes, sign, multiples of 65536 plus well-known setting registers
+WIDE = [65535, 65536, 65537, 131072 + 47000, 196608, 196608 + 47000, 196608 + 47510, 262143, 393216 + 45222, 851968, 851968 + 47547,
+        917503, 1048576 + 47000, (1 << 24) + 6, (1 << 24) * 6 + 47000, (1 << 32) + 6, -1, -47000, -65536 + 47000, 16 << 16, (16 << 16) + 47547, 6 << 16,
+        (6 << 16) + 47000, (0x86 << 16) + 1, (0x10 << 24) + 47547]
+
+
+def wide_register(arg):
+    if arg % 3 == 0:
+        return WIDE[(arg // 3) % len(WIDE)]
+    if arg % 3 == 1:
+        return ((arg * 2654435761) >> 3) % (1 << 21)          # anywhere up to 2^21
+    return (((arg >> 2) % 64) << 16) + (45000 + (arg * 7919) % 3000)   # k x 65536 + a settings register
 
 
 def do_read_call(inv, name, arg):
@@ -59,6 +73,12 @@ def do_read_call(inv, name, arg):
         if fam == "ES":
             return inv.read_setting("modbus-%d" % (1793 + arg % 16))
         return inv.read_sensor("modbus-%d" % (30000 + arg % 20000))
+    if name == "read_setting_modbus_wide":
+        return inv.read_setting("modbus-%d" % wide_register(arg))
+    if name == "read_sensor_modbus_wide":
+        if fam == "ES":
+            return inv.read_setting("modbus-%d" % wide_register(arg + 1))
+        return inv.read_sensor("modbus-%d" % wide_register(arg))
     if name == "get_operation_modes":
         return inv.get_operation_modes(bool(arg & 1))
     return getattr(inv, name)()
@@ -405,6 +425,8 @@ def read_grid_job(job):
         calls = []
         for name in READ_CALLS:
             reps = 1 if name not in ("read_sensor", "read_setting") else (12 if quick else 400)
+            if name.endswith("_wide"):
+                reps = 3 * len(WIDE) if quick else 1200
             for a in range(reps):
                 calls.append([name, a * 7 + i])
         case = {"cfg": cfg, "calls": calls, "image": 0x0101}
